@@ -4,6 +4,7 @@ PROVE: Properties/C01.v — the scratch-buffer plan regenerated from _lou_allocM
 CORRESPOND: (1) black-box identification of the plan (allocated bytes on a grid vs the extracted plan);
  (2) ASan+UBSan streams with exact scratch sizes and exactly sized caller arrays over shipped and generated
  tables; (3) long inputs (> 1024) without the exact hook; reported lengths stay within the supplied ones."""
+import json
 import os
 import shutil
 
@@ -70,6 +71,17 @@ def run_streams(chk, rng, fns, cells, pid):
         tf = work / ("m%d.utb" % i)
         tf.write_text(tablegen.pass_table_text(entries, rules))
         gen_tables.append(("unicode.dis," + str(tf), letters + [32]))
+    # corpus first: minimised cases that failed once (corpus/<pid>/*.json: table_list, case_line, exact)
+    for cf in sorted((common.VERIF / "corpus" / pid.lower()).glob("*.json")):
+        c = json.loads(cf.read_text())
+        res = trans.run_cases(exe, c["table_list"], [c["case_line"]], exact=c.get("exact", 1), env=env, timeout=120)[0]
+        chk.count(("corpus", cf.name), nontrivial=True)
+        chk.tally("corpus_cases")
+        bad = safety.classify(res)
+        if bad:
+            chk.violation(bad[0], "corpus case %s: %s" % (cf.name, bad[1]), dict(table_list=c["table_list"], case_line=c["case_line"], impl=list(res.crash) if res.crash else res.raw))
+        else:
+            chk.cov["traces_validated_against_impl"] += 1
     streams = [(t, None) for t in tables] + gen_tables
     for tl, alphabet in streams:
         r = rng.fork(("cases", tl))
